@@ -1,7 +1,7 @@
 """C15 — key values behave as an atomic register (value-operation level: M-VALUE vs the real ProcessLockData)."""
-from props import c15v
+from props import c15v, engine2_common
 
-THEOREMS = c15v.THEOREMS_C15
+THEOREMS = c15v.THEOREMS_C15 + engine2_common.THEOREMS_C15E
 FINISH = dict(c15v.FINISH)
 
 
@@ -12,5 +12,15 @@ def want(sig):
 def run(ctx):
     ctx.extract()
     c15v.run_value(ctx, want, which=("C15",))
-    ctx.assumptions.append("this check covers the value cell and its nine operations byte for byte (the register semantics of C15); that replies carry the value from "
-                           "immediately before the operation and that the Redis-style commands compose converter→engine→writer are not yet covered by theorems")
+    # engine part: which value a reply carries, refusals change nothing, queued grants (M-ENGINE stage 2 vs the real LockDB)
+    engine2_common.run_c15_engine(ctx)
+    ctx.assumptions.append("value cell and its nine operations: M-VALUE vs the real ProcessLockData byte for byte; which value a reply carries / refusals / queued grants: "
+                           "M-ENGINE stage 2 (hand-written, tied by the E-seq differential with value frames on the real LockDB and cross-checked against stage 1 through abs); "
+                           "the composition converter→engine→writer of the Redis-style commands is covered by the text-protocol checks (C14/C13), not by a theorem here")
+
+
+def replay(path):
+    txt = open(path).read()
+    if "engine2 " in txt:
+        return engine2_common.replay_engine2("C15", path, ["C15:"])
+    return c15v.replay(path) if hasattr(c15v, "replay") else 2
